@@ -157,6 +157,13 @@ def check(spec, ctx):
         tag = ["FLEX", "POSRES"][(spec["rng"] // 2) % 2]
         top_text = top_text.replace("[ atomtypes ]", f"#define {tag}\n[ atomtypes ]")
         ctx.label("guard_macro_defined_in_top")
+    twin_case = spec.get("rng", 1) % 3 == 0
+    if twin_case:
+        # another molecule type whose name differs from the generated one in case only (MOL next to mol),
+        # defined after it and listed after it
+        top_text = top_text.replace("[ system ]", "[ moleculetype ]\nMOL 1\n[ atoms ]\n1 T1 1 ZZ Z1 1 0.0 72.0\n[ system ]")
+        top_text = top_text.replace("mol 2\n", "mol 2\nMOL 1\n")
+        ctx.label("molecule_names_differing_in_case")
     (ctx.dir / "sys.top").write_text(top_text)
     # the process works in another directory that holds an older file of the same name: the include in
     # sys.top still means the file next to sys.top
@@ -172,6 +179,11 @@ def check(spec, ctx):
         raise crash("reread:topology_reader", err)
     finally:
         os.chdir(here)
+    if twin_case:
+        if len(topology.molecules) != 3 or topology.molecules[2].mol_name != "MOL" or len(topology.molecules[2].molecule.nodes) != 1:
+            raise Violation("reread:molecule_list", f"{[(m.mol_name, len(m.molecule.nodes)) for m in topology.molecules]} expected two copies "
+                                                    f"of mol and the one-atom MOL")
+        topology.molecules = topology.molecules[:2]
     if len(topology.molecules) != 2:
         raise Violation("reread:molecule_count", f"{len(topology.molecules)} molecules for a [ molecules ] count of 2")
     # every copy of the molecule is the molecule that was built
